@@ -436,7 +436,28 @@ pub fn c09(tier: Tier) -> ! {
     }
     // (1b) repeated solo runs, for every seed the CLI hands out first, on fresh threads
     let mut repeats = 0u64;
-    for (label, st) in states.iter() {
+    let mut repeat_states = c09_states();
+    {
+        // a state with three occupied sites under three different letters (public constructor)
+        use packing::wallpaper::{get_wallpaper_group, Wallpaper, WyckoffSite};
+        let wg = get_wallpaper_group(crate::oracle::wallpaper_enum("p2")).unwrap();
+        let mut sites = vec![];
+        for letter in ['d', 'a', 'k'].iter() {
+            let mut w = WyckoffSite::new(&wg).unwrap();
+            w.letter = *letter;
+            sites.push(w);
+        }
+        let st = AnyState::Poly(packing::PackedState::initialise(packing::LineShape::polygon(4).unwrap(), Wallpaper::new(&wg), &sites));
+        // spread the sites apart so that the start is valid
+        let nb = st.basis_values().len();
+        for (k, v) in [(nb - 3, -0.3), (nb - 2, 0.3), (nb - 6, 0.3), (nb - 5, -0.2), (nb - 9, 0.1), (nb - 8, 0.05)].iter() {
+            st.set_basis_value(*k, *v);
+        }
+        if st.score().is_some() {
+            repeat_states.push(("p2 square hard, three sites".to_string(), st));
+        }
+    }
+    for (label, st) in repeat_states.iter() {
         let pl = Pipeline { stages: vec![(6, 3, 0.1)], max_step: 0.2 };
         for seed in [0u64, 1, 2, 3, 17, u64::MAX].iter() {
             let a = solo(st, &pl, *seed);
@@ -519,6 +540,32 @@ pub fn c09(tier: Tier) -> ! {
         trees += n;
         for f in fails {
             run.fail(None, &f, json!({"engine": "reduction", "label": label, "seeds": seeds}));
+        }
+    }
+    // scores that differ by less than 1e-6 from their neighbours: the maximum must still be THE
+    // maximum under every association (an ordering with a tolerance is not transitive)
+    {
+        let tpl = StateTemplate::new("p2", &ShapeSpec::Polygon(4).json());
+        for order in 0..3 {
+            let mut items: Vec<packing::PackedState<packing::LineShape>> = vec![];
+            for k in 0..7usize {
+                let j = match order {
+                    0 => k,
+                    1 => 6 - k,
+                    _ => (k * 3) % 7,
+                };
+                let p = Params { length: 4.2 * (1. + 2.5e-7 * j as f64), ratio: 1., angle: std::f64::consts::PI / 2., x: -0.25, y: -0.25, phi: 0. };
+                if let Ok(AnyState::Poly(s)) = AnyState::from_json(&tpl.with(&p)) {
+                    items.push(s);
+                }
+            }
+            if items.len() == 7 && items.iter().all(|i| i.score().is_some()) {
+                let (n, fails) = reduction_check(items, "seven p2 squares whose scores differ by 1e-7 steps");
+                trees += n;
+                for f in fails {
+                    run.fail(None, &f, json!({"engine": "reduction", "label": "chained scores", "order": order}));
+                }
+            }
         }
     }
     run.set("reduction_trees", trees);
